@@ -184,4 +184,42 @@ func classes(m map[string]bool) []string {
 	return out
 }
 
-var _ = ev.Outcome{}
+// Class c11.maven_dep_and_management_differ / c12.maven_dep_and_management_differ: a Maven
+// manifest lists a package both in <dependencies> and in <dependencyManagement> with
+// different requirements (remediation.ConstructPatches keys the old requirements without the
+// origin, so the two entries are confused).
+const clsDepMgmtDiffer = "maven_dep_and_management_differ"
+
+func depMgmtDiffer(m universe.Manifest) bool {
+	for _, d := range m.Deps {
+		for _, g := range m.Management {
+			if d.Name == g.Name && d.Req != g.Req {
+				return true
+			}
+		}
+	}
+	return false
+}
+
+// suppressDepMgmtDiffer keeps the package in both sections but gives the
+// dependencyManagement entry the requirement of the dependency.
+func suppressDepMgmtDiffer(m *universe.Manifest) {
+	for _, d := range m.Deps {
+		for i, g := range m.Management {
+			if d.Name == g.Name {
+				m.Management[i].Req = d.Req
+			}
+		}
+	}
+}
+
+// honourDepMgmtClass applies the known-finding exclusion of the class for a property.
+func honourDepMgmtClass(col *ev.Collector, prefix string, m *universe.Manifest) {
+	if col == nil || m.System != universe.Maven || !depMgmtDiffer(*m) {
+		return
+	}
+	if cls := prefix + "." + clsDepMgmtDiffer; col.IsKnown(cls) {
+		col.Excluded(cls)
+		suppressDepMgmtDiffer(m)
+	}
+}
